@@ -20,6 +20,9 @@ type heapEff struct {
 }
 
 type loopEff struct {
+	callees map[string]bool
+	calleeFns map[string]*ssa.Function
+	proto   bool
 	cells   []*ssa.Alloc
 	ranges  []*ssa.Range
 	anyCall bool
@@ -134,8 +137,23 @@ func (x *X) scanCall(fn *ssa.Function, cc *ssa.CallCommon, eff *loopEff, depth i
 		return
 	}
 	eff.anyCall = true
+	if eff.callees == nil {
+		eff.callees = map[string]bool{}
+	}
+	if protocolKind(cc.Signature()) != "" {
+		eff.proto = true
+	}
 	if cc.IsInvoke() {
 		return
+	}
+	if f, ok := cc.Value.(*ssa.Function); ok {
+		eff.callees[funcName(f)] = true
+		if eff.calleeFns == nil {
+			eff.calleeFns = map[string]*ssa.Function{}
+		}
+		eff.calleeFns[funcName(f)] = f
+	} else {
+		eff.callees["param."+dynName(cc)] = true
 	}
 	callee, ok := cc.Value.(*ssa.Function)
 	if !ok {
@@ -227,6 +245,19 @@ func (x *X) scanBody(callee *ssa.Function, eff *loopEff, depth int, actuals []ss
 	}
 	eff.anyCall = eff.anyCall || sub.anyCall
 	eff.allocs = eff.allocs || sub.allocs
+	eff.proto = eff.proto || sub.proto
+	for k := range sub.callees {
+		if eff.callees == nil {
+			eff.callees = map[string]bool{}
+		}
+		eff.callees[k] = true
+	}
+	for k, f := range sub.calleeFns {
+		if eff.calleeFns == nil {
+			eff.calleeFns = map[string]*ssa.Function{}
+		}
+		eff.calleeFns[k] = f
+	}
 	for _, h := range sub.heap {
 		h.base = mapToCaller(callee, h.base, actuals)
 		eff.heap = append(eff.heap, h)
